@@ -29,6 +29,15 @@ instance {ς} : Monad (M ς) where
     | (s', .panic p) => (s', .panic p)
     | (s', .diverge) => (s', .diverge)
 
+theorem M.bind_def {ς α β} (m : M ς α) (f : α → M ς β) (s : ς) :
+    (m >>= f) s = match m s with
+      | (s', .ok a) => f a s'
+      | (s', .err e) => (s', .err e)
+      | (s', .panic p) => (s', .panic p)
+      | (s', .diverge) => (s', .diverge) := rfl
+
+theorem M.pure_def {ς α} (a : α) (s : ς) : (pure a : M ς α) s = (s, .ok a) := rfl
+
 def M.fail {ς α} (e : Err) : M ς α := fun s => (s, .err e)
 def M.panic {ς α} (site : String) : M ς α := fun s => (s, .panic site)
 def M.diverge {ς α} : M ς α := fun s => (s, .diverge)
@@ -318,15 +327,18 @@ def mergeOffsets {α} (res : List (Bytes × List α)) (t : Bytes) (ps : List (Ex
   | .error (p, code) => .error (.tpe t p code)
   | .ok new => .ok (upsert res t [] (· ++ new))
 
+/-- the per-host requests `fetch_offsets` builds (client/mod.rs:853-880): only led partitions of known topics -/
+def offsetRequests (c : Client) (corr : Int) (topics : List Bytes) (time : Int) : List (Bytes × OffsetRequest) :=
+  topics.foldl (fun reqs t =>
+    match c.st.ledPartitions t with
+    | none => reqs
+    | some ps => ps.foldl (fun reqs (x : Int × Bytes) =>
+        upsert reqs x.2 (OffsetRequest.new corr c.cfg.clientId) (·.add t x.1 time)) reqs) []
+
 def fetchOffsets (env : Env σ) (topics : List Bytes) (time : Int) : CM σ (List (Bytes × List (Int × Int))) := do
   let corr ← nextCorr
   let c ← getClient
-  let reqs : List (Bytes × OffsetRequest) :=
-    topics.foldl (fun reqs t =>
-      match c.st.ledPartitions t with
-      | none => reqs
-      | some ps => ps.foldl (fun reqs (id, host) =>
-          upsert reqs host (OffsetRequest.new corr c.cfg.clientId) (·.add t id time)) reqs) []
+  let reqs : List (Bytes × OffsetRequest) := offsetRequests c corr topics time
   let rec merge : List (Bytes × List PartOffsetResp) → List (Bytes × List (Int × Int)) → Except Err (List (Bytes × List (Int × Int)))
     | [], res => .ok res
     | (t, ps) :: r, res =>
@@ -347,15 +359,17 @@ def fetchOffsets (env : Env σ) (topics : List Bytes) (time : Int) : CM σ (List
         go fuel (reqs.filter (·.1 ≠ host)) res'
   go reqs.length reqs []
 
+def listOffsetRequests (c : Client) (corr : Int) (topics : List Bytes) (time : Int) : List (Bytes × ListOffsetsRequest) :=
+  topics.foldl (fun reqs t =>
+    match c.st.ledPartitions t with
+    | none => reqs
+    | some ps => ps.foldl (fun reqs (x : Int × Bytes) =>
+        upsert reqs x.2 (ListOffsetsRequest.new corr c.cfg.clientId) (·.add t x.1 time)) reqs) []
+
 def listOffsets (env : Env σ) (topics : List Bytes) (time : Int) : CM σ (List (Bytes × List (Int × Int × Int))) := do
   let corr ← nextCorr
   let c ← getClient
-  let reqs : List (Bytes × ListOffsetsRequest) :=
-    topics.foldl (fun reqs t =>
-      match c.st.ledPartitions t with
-      | none => reqs
-      | some ps => ps.foldl (fun reqs (id, host) =>
-          upsert reqs host (ListOffsetsRequest.new corr c.cfg.clientId) (·.add t id time)) reqs) []
+  let reqs : List (Bytes × ListOffsetsRequest) := listOffsetRequests c corr topics time
   let rec merge : List (Bytes × List PartListOffsetResp) → List (Bytes × List (Int × Int × Int)) → Except Err (List (Bytes × List (Int × Int × Int)))
     | [], res => .ok res
     | (t, ps) :: r, res =>
